@@ -340,7 +340,7 @@ func ruleMetaOps(r *Run, rule string, k *metaKind) {
 				if cls == ErrNil {
 					okOps[op] = true
 				}
-				if cls == ErrNonNil && len(s) > 3 { // the default branch (reached by many operators)
+				if cls == ErrNonNil && s[otherVal] { // the default branch: the only error return an unknown operator value can reach
 					errOps[op] = true
 				}
 			}
@@ -457,30 +457,47 @@ func ruleMetaNumericTable(r *Run, rule string, numF *ssa.Function, isTag func(ss
 	for _, call := range callsIn(numF, func(cc *ssa.CallCommon) bool { return strings.HasSuffix(calleeName(cc), "BSI).CompareValue") }) {
 		cc := call.Common()
 		site := w.InstrPos(call) + " " + name
-		opv, _ := constString(cc.Args[2])
-		opn := opNames[opv]
-		s := reach[call.Block()]
-		var ks []string
-		for op := range s {
-			ks = append(ks, op)
+		// the operation argument: a constant, or chosen per operator by an inner switch (a phi: one row per edge)
+		type rowT struct {
+			opv string
+			s   valSet
 		}
-		sort.Strings(ks)
-		key := "bsi:" + strings.Join(ks, "|")
-		ok := len(s) > 0
-		for op := range s {
-			seen[op] = true
-			if want[op] != opn {
-				ok = false
+		var rowsT []rowT
+		if ph, isPhi := cc.Args[2].(*ssa.Phi); isPhi {
+			for i, e := range ph.Edges {
+				ov, _ := constString(e)
+				rowsT = append(rowsT, rowT{ov, reach[ph.Block().Preds[i]]})
 			}
+		} else {
+			ov, _ := constString(cc.Args[2])
+			rowsT = append(rowsT, rowT{ov, reach[call.Block()]})
 		}
-		val, end := c.S(cc.Args[3]), c.S(cc.Args[4])
-		argsOK := val == "toInt64(P2.Value)#0" && (end == "c(0)" || (opn == "RANGE" && end == "toInt64(P2.Value2)#0"))
-		if opn == "RANGE" && end != "toInt64(P2.Value2)#0" {
-			argsOK = false
+		for _, row := range rowsT {
+			opv := row.opv
+			opn := opNames[opv]
+			s := row.s
+			var ks []string
+			for op := range s {
+				ks = append(ks, op)
+			}
+			sort.Strings(ks)
+			key := "bsi:" + strings.Join(ks, "|")
+			ok := len(s) > 0
+			for op := range s {
+				seen[op] = true
+				if want[op] != opn {
+					ok = false
+				}
+			}
+			val, end := c.S(cc.Args[3]), c.S(cc.Args[4])
+			argsOK := val == "toInt64(P2.Value)#0" && (end == "c(0)" || (opn == "RANGE" && end == "toInt64(P2.Value2)#0"))
+			if opn == "RANGE" && end != "toInt64(P2.Value2)#0" {
+				argsOK = false
+			}
+			recvOK := c.S(cc.Args[0]) == "P1"
+			r.Check(ok && argsOK && recvOK, rule, key, site, fmt.Sprintf("operators %v → bsi.%s(value=%s, end=%s) on the field's BSI", ks, opn, val, end),
+				fmt.Sprintf("operators %v are answered with bsi.%s(value=%s, end=%s, bsi=%s)", ks, opn, val, end, c.S(cc.Args[0])))
 		}
-		recvOK := c.S(cc.Args[0]) == "P1"
-		r.Check(ok && argsOK && recvOK, rule, key, site, fmt.Sprintf("operators %v → bsi.%s(value=%s, end=%s) on the field's BSI", ks, opn, val, end),
-			fmt.Sprintf("operators %v are answered with bsi.%s(value=%s, end=%s, bsi=%s)", ks, opn, val, end, c.S(cc.Args[0])))
 	}
 	var missing []string
 	for op := range want {
